@@ -467,6 +467,8 @@ def judge_denial_stream(o):
 
 def shards(tier, seed):
     out = [("bfs", fi, fault) for fi in range(len(FRAMES)) for fault in FAULTS]
+    # the same search with assert statements compiled away (python -O), each in an interpreter of its own
+    out += [("bfs-O", fi, fault) for fi in range(len(FRAMES)) for fault in (FAULTS if tier == "thorough" else FAULTS[:2])]
     out.append(("dispatch",))
     n = 4 if tier == "quick" else 12
     out += [("pairs", k, n) for k in range(n)]
@@ -476,8 +478,26 @@ def shards(tier, seed):
     return out
 
 
+def run_shard_fresh(desc, tier):
+    import sys
+    if desc[0] == "replay-O":
+        rr = R()
+        hit, detail = replay(desc[1])
+        if hit:
+            rr.violation("replayed", desc[1], "; ".join(detail.get("problems", []))[:300])
+        return rr
+    rr = run_shard(desc, tier)
+    if desc[0] == "bfs" and sys.flags.optimize:
+        # (what this interpreter found is reported under a name of its own: a replay has to use the same interpreter setting)
+        rr.viol = {"python-O:" + k: (v[0], dict(v[1], optimize=True), "with assert statements compiled away (python -O): " + v[2]) for k, v in rr.viol.items()}
+    return rr
+
+
 def run_shard(desc, tier):
     r = R()
+    if desc[0] == "bfs-O":
+        from ..core import fresh
+        return fresh.call(__name__, ("bfs",) + tuple(desc[1:]), tier, env={"PYTHONOPTIMIZE": "1"})
     if desc[0] == "dispatch":
         dispatch(r)
         return r
@@ -732,7 +752,12 @@ def finish(merged, tier):
 
 
 def replay(w):
+    import sys
     r = R()
+    if w.get("optimize") and not sys.flags.optimize:
+        from ..core import fresh
+        rr = fresh.call(__name__, ("replay-O", {k: v for k, v in w.items() if k != "optimize"}), "quick", env={"PYTHONOPTIMIZE": "1"})
+        return bool(rr.viol), {"violations": sorted(rr.viol), "texts": [v[2][:300] for v in rr.viol.values()], "notes": rr.notes[:1]}
     if "pairs" in w:
         out = run_pair(tuple(w["pairs"][0]), tuple(w["pairs"][1]), tuple(w["order"]))
         solo = []
